@@ -36,3 +36,5 @@ D = {
  "C20": dict(text="validators accept exactly their ranges (token abstraction), file_ refusals over filesystem oracle predicates, main(): command->constructor wiring, generate(account, interval), paranoia filter, exactly one output channel; known finding: --interval accepts values above 2^31.",
              technique="deductive: validator contracts + main wiring over summarised callees; process level bounded"),
 }
+D["C10"] = dict(text="loop invariants on encode_base58 / decode_base58 over symbolic-length sequences ('1'^lz ++ digits of the value; value accumulation, alphabet check, pad count over s[:-1]); checksum decoder returns the payload iff the last four decoded bytes are the first four of the double SHA-256 (incl. decoded length < 4); code-independent inverse lemmas by induction schema; round trip composed from the contracts.",
+                technique="deductive: inductive loop invariants over z3 sequences + induction-schema lemmas")
